@@ -258,10 +258,10 @@ def run(ctx, ck) -> None:
     t = _ret(sf) if isinstance(sf, ast.FunctionDef) else None
     ok = False
     if t is not None and isinstance(sf, ast.FunctionDef):
-        e = path_env(next(p for p in function_paths(sf) if p.exit == 'return'))
-        arr = e.get('stokes_arrays')
         cls_param = ('var', sf.args.args[0].arg)
-        ok = t == ('call', cls_param, (('star', arr),), ()) and arr == ('binop', '*', ('call', ('var', 'len'), (('attr', cls_param, 'stokes'),), ()), ('list', ('call', ('attr', ('var', 'jax'), 'ShapeDtypeStruct'), (('var', 'shape'), ('var', 'dtype')), ())))
+        n_t = ('call', ('var', 'len'), (('attr', cls_param, 'stokes'),), ())
+        one = ('list', ('call', ('attr', ('var', 'jax'), 'ShapeDtypeStruct'), (('var', sf.args.args[1].arg), ('var', sf.args.args[2].arg)), ()))
+        ok = t in (('call', cls_param, (('star', ('binop', '*', n_t, one)),), ()), ('call', cls_param, (('star', ('binop', '*', one, n_t)),), ()))
     ck.expect('V5', ok, sf or stokes.node, 'structure_for builds one ShapeDtypeStruct(shape, dtype) per letter of stokes', f'structure_for returns {show(t)}', instance='structure_for')
 
     # ------------------------------------------------------------------ V6 tree helpers
@@ -287,12 +287,13 @@ def run(ctx, ck) -> None:
     ok = t is not None and t[0] == 'call' and t[1] == ('var', 'sum') and t[2] and t[2][0] == ('call', ('attr', ('attr', ('var', 'jax'), 'tree'), 'leaves'), (xy,), ())
     ck.expect('V6', ok, fn, 'dot = sum over leaves of vdot(x_leaf, y_leaf) (x conjugated: Hermitian product, operand order matters)', f'dot returns {show(t)}: not the sum of vdot over (x, y) in that order', instance='dot')
     fn = helper('as_promoted_dtype')
-    e = path_env(next(p for p in function_paths(fn) if p.exit == 'return'))
     x = ('var', fn.args.args[0].arg)
-    promo = e.get('promoted_dtype')
-    ok_p = promo == ('call', ('attr', ('var', 'jnp'), 'result_type'), (('star', ('call', ('attr', ('attr', ('var', 'jax'), 'tree'), 'leaves'), (x,), ())),), ())
+    promo = ('call', ('attr', ('var', 'jnp'), 'result_type'), (('star', ('call', ('attr', ('attr', ('var', 'jax'), 'tree'), 'leaves'), (x,), ())),), ())
     t = _ret(fn)
-    ok_m = t is not None and t[0] == 'call' and t[1] == ('attr', ('attr', ('var', 'jax'), 'tree'), 'map') and t[2][1] == x and 'astype' in show(t[2][0]) and show(promo) in show(t[2][0])
+    from ..terms import contains as _contains
+
+    ok_p = t is not None and _contains(t, promo)
+    ok_m = t is not None and t[0] == 'call' and t[1] == ('attr', ('attr', ('var', 'jax'), 'tree'), 'map') and t[2][1] == x and 'astype' in show(t[2][0]) and _contains(t[2][0], promo)
     ck.expect('V6', ok_p and ok_m, fn, 'every leaf is cast to result_type(*all leaves)', f'as_promoted_dtype: promoted dtype {show(promo)}, mapping {show(t)[:120]}', instance='as_promoted_dtype')
     for name, rnd in (('normal_like', 'normal'), ('uniform_like', 'uniform')):
         fn = helper(name)
